@@ -308,11 +308,7 @@ func (ex *Exec) convert(from, to types.Type, v Value) Value {
 			if f.Info()&types.IsInteger != 0 {
 				t := v.(*Term)
 				if !t.IsConst() {
-					// string(rune) of a symbolic integer: UTF-8 encoding depends on the value
-					w, signed, _ := basicWidth(f)
-					_ = w
-					r := ex.concretize(t, signed, "string(int) rune")
-					return ex.concStr(string(rune(r)))
+					return ex.symRuneString(t, f)
 				}
 				_, signed, _ := basicWidth(f)
 				var r int64
@@ -673,3 +669,36 @@ func firstOrNil(a []Value) Value {
 }
 
 func init() { _ = fmt.Sprint }
+
+// symRuneString: string(x) for a symbolic integer x — UTF-8 encoding with symbolic bytes;
+// forks only on the length class of the encoding.
+func (ex *Exec) symRuneString(t *Term, f *types.Basic) Value {
+	tc := ex.tc
+	_, signed, _ := basicWidth(f)
+	v := tc.Resize(t, 64, signed)
+	c := func(x uint64) *Term { return tc.Const(64, x) }
+	lt := func(a *Term, k uint64) *Term { return tc.Cmp(OUlt, a, c(k)) }
+	dec := func(cond *Term) bool {
+		if cond.IsConst() {
+			return cond.val != 0
+		}
+		return ex.fork(cond)
+	}
+	b := func(x *Term) *Term { return tc.Extract(x, 7, 0) }
+	cont := func(sh uint64) *Term {
+		return b(tc.Bin(OBOr, c(0x80), tc.Bin(OBAnd, tc.Bin(OLShr, v, c(sh)), c(0x3F))))
+	}
+	switch {
+	case dec(lt(v, 0x80)):
+		return ex.mkStr([]*Term{b(v)})
+	case dec(lt(v, 0x800)):
+		return ex.mkStr([]*Term{b(tc.Bin(OBOr, c(0xC0), tc.Bin(OLShr, v, c(6)))), cont(0)})
+	case dec(tc.And(tc.Not(lt(v, 0xD800)), lt(v, 0xE000))):
+		return ex.concStr("\uFFFD")
+	case dec(lt(v, 0x10000)):
+		return ex.mkStr([]*Term{b(tc.Bin(OBOr, c(0xE0), tc.Bin(OLShr, v, c(12)))), cont(6), cont(0)})
+	case dec(lt(v, 0x110000)):
+		return ex.mkStr([]*Term{b(tc.Bin(OBOr, c(0xF0), tc.Bin(OLShr, v, c(18)))), cont(12), cont(6), cont(0)})
+	}
+	return ex.concStr("\uFFFD")
+}
